@@ -41,10 +41,10 @@ Proof.
 Qed.
 End Builder.
 
-Lemma frag_get_prefix_map_ok k c rs :
-  run (S k) frag_table c f__get_prefix_map [PList (map PRec rs)] = EV (PDict (sdv (idx_of all_prefixes r_uri rs))).
+Lemma frag_get_prefix_map_fn call c rs :
+  run_fn c call frag__get_prefix_map [PList (map PRec rs)] = EV (PDict (sdv (idx_of all_prefixes r_uri rs))).
 Proof.
-  rewrite run_S5. cbn.
+  unfold run_fn. cbn.
   match goal with |- context [for_loop ?f] => set (outer := f) end.
   assert (OS : forall r d rs0 x2 x3, exists y3,
              outer (PRec r) [rs0; PDict (sdv d); x2; x3] = ONorm [rs0; PDict (sdv (idx_rec all_prefixes r_uri d r)); PRec r; y3]).
@@ -62,12 +62,15 @@ Proof.
   destruct (builder_loop all_prefixes r_uri outer OS rs [] (PList (map PRec rs)) PNone PNone) as [y2 [y3 E]].
   change (sdv []) with (@nil (str * pv)) in E. rewrite E. reflexivity.
 Qed.
+Lemma frag_get_prefix_map_ok k c rs :
+  run (S k) frag_table c f__get_prefix_map [PList (map PRec rs)] = EV (PDict (sdv (idx_of all_prefixes r_uri rs))).
+Proof. rewrite run_S5. change (nth_error frag_table f__get_prefix_map) with (Some frag__get_prefix_map). apply frag_get_prefix_map_fn. Qed.
 Print Assumptions frag_get_prefix_map_ok.
 
-Lemma frag_get_prefix_synmap_ok k c rs :
-  run (S k) frag_table c f__get_prefix_synmap [PList (map PRec rs)] = EV (PDict (sdv (idx_of all_prefixes r_prefix rs))).
+Lemma frag_get_prefix_synmap_fn call c rs :
+  run_fn c call frag__get_prefix_synmap [PList (map PRec rs)] = EV (PDict (sdv (idx_of all_prefixes r_prefix rs))).
 Proof.
-  rewrite run_S5. cbn.
+  unfold run_fn. cbn.
   match goal with |- context [for_loop ?f] => set (outer := f) end.
   assert (OS : forall r d rs0 x2 x3, exists y3,
              outer (PRec r) [rs0; PDict (sdv d); x2; x3] = ONorm [rs0; PDict (sdv (idx_rec all_prefixes r_prefix d r)); PRec r; y3]).
@@ -85,12 +88,15 @@ Proof.
   destruct (builder_loop all_prefixes r_prefix outer OS rs [] (PList (map PRec rs)) PNone PNone) as [y2 [y3 E]].
   change (sdv []) with (@nil (str * pv)) in E. rewrite E. reflexivity.
 Qed.
+Lemma frag_get_prefix_synmap_ok k c rs :
+  run (S k) frag_table c f__get_prefix_synmap [PList (map PRec rs)] = EV (PDict (sdv (idx_of all_prefixes r_prefix rs))).
+Proof. rewrite run_S5. change (nth_error frag_table f__get_prefix_synmap) with (Some frag__get_prefix_synmap). apply frag_get_prefix_synmap_fn. Qed.
 Print Assumptions frag_get_prefix_synmap_ok.
 
-Lemma frag_get_reverse_prefix_map_ok k c rs :
-  run (S k) frag_table c f__get_reverse_prefix_map [PList (map PRec rs)] = EV (PDict (sdv (idx_of all_uris r_prefix rs))).
+Lemma frag_get_reverse_prefix_map_fn call c rs :
+  run_fn c call frag__get_reverse_prefix_map [PList (map PRec rs)] = EV (PDict (sdv (idx_of all_uris r_prefix rs))).
 Proof.
-  rewrite run_S5. cbn.
+  unfold run_fn. cbn.
   match goal with |- context [for_loop ?f] => set (outer := f) end.
   assert (OS : forall r d rs0 x2 x3, exists y3,
              outer (PRec r) [rs0; PDict (sdv d); x2; x3] = ONorm [rs0; PDict (sdv (idx_rec all_uris r_prefix d r)); PRec r; y3]).
@@ -108,5 +114,8 @@ Proof.
   destruct (builder_loop all_uris r_prefix outer OS rs [] (PList (map PRec rs)) PNone PNone) as [y2 [y3 E]].
   change (sdv []) with (@nil (str * pv)) in E. rewrite E. reflexivity.
 Qed.
+Lemma frag_get_reverse_prefix_map_ok k c rs :
+  run (S k) frag_table c f__get_reverse_prefix_map [PList (map PRec rs)] = EV (PDict (sdv (idx_of all_uris r_prefix rs))).
+Proof. rewrite run_S5. change (nth_error frag_table f__get_reverse_prefix_map) with (Some frag__get_reverse_prefix_map). apply frag_get_reverse_prefix_map_fn. Qed.
 Print Assumptions frag_get_reverse_prefix_map_ok.
 
